@@ -273,7 +273,7 @@ def make_connection():
     return p, clock
 
 
-def scenario(kinds, order, dup=True, loss_at=None):
+def scenario(kinds, order, dup=True, loss_at=None, closing_at=None, reason_kind=0):
     """kinds[i] in R (return) E (error with text) e (empty error) T (expiry); order = completion order"""
     from twisted.python import failure
     from txdbus import error, message
@@ -325,7 +325,9 @@ def scenario(kinds, order, dup=True, loss_at=None):
         if loss_at == step:
             # the connection is lost with the calls of order[step:] outstanding: each fails once with the loss reason,
             # at once no timer and no bookkeeping remains, and nothing more happens when the clock runs on
-            reason = failure.Failure(RuntimeError('lost'))
+            # ... whatever the reason is: an error of the transport, an orderly close by the peer, a close asked for locally
+            from twisted.internet import error as _terr
+            reason = failure.Failure([RuntimeError('lost'), _terr.ConnectionDone(), _terr.ConnectionLost(), _terr.ConnectionAborted()][reason_kind % 4])
             try:
                 p.connectionLost(reason)
             except Exception as e:
@@ -342,6 +344,10 @@ def scenario(kinds, order, dup=True, loss_at=None):
             except Exception as e:
                 return 'clock run after the connection loss raised %s: %s' % (type(e).__name__, e)
             return check('after the connection loss before step %d and a clock run' % step)
+        if closing_at == step:
+            # the application asked for the connection to be closed; until the transport reports the loss, replies that still arrive
+            # complete their calls as before (whichever happens first)
+            p.transport.loseConnection()
         try:
             if k == 'T':
                 clock.advance(dl[i] - now + 0.001)
@@ -460,10 +466,15 @@ def bounded(tier, seed):
                 if f:
                     return n, f, {'kinds': ''.join(kinds), 'order': list(order)}
                 for la in range(N):
+                    for rk in range(4):
+                        n += 1
+                        f = scenario(kinds, order, loss_at=la, reason_kind=rk)
+                        if f:
+                            return n, f, {'kinds': ''.join(kinds), 'order': list(order), 'connection_lost_before_step': la, 'reason': rk}
                     n += 1
-                    f = scenario(kinds, order, loss_at=la)
+                    f = scenario(kinds, order, closing_at=la, loss_at=(la + 1 if la + 1 < N else None), reason_kind=la + 1)
                     if f:
-                        return n, f, {'kinds': ''.join(kinds), 'order': list(order), 'connection_lost_before_step': la}
+                        return n, f, {'kinds': ''.join(kinds), 'order': list(order), 'close_requested_before_step': la}
     rnd = random.Random(seed)
     for _ in range(10000 if tier == 'thorough' else 30):
         N = rnd.randrange(3, 6)
@@ -472,7 +483,7 @@ def bounded(tier, seed):
         rnd.shuffle(order)
         n += 1
         la = rnd.choice([None] + list(range(N)))
-        f = scenario(kinds, order, loss_at=la)
+        f = scenario(kinds, order, loss_at=la, reason_kind=rnd.randrange(4))
         if f:
             return n, f, {'kinds': ''.join(kinds), 'order': order, 'connection_lost_before_step': la}
     n += 1
